@@ -71,8 +71,8 @@ def validate(ck, module, cfg, events, wdir, tag="trace", max_rejections=20, shar
 def judge(ck, module, cfg, events, wdir, tag="batch", shard=20000, timeout=1200, env=None):
     """Batch judging: every event is one case; the trace spec consumes all of
     them and prints "VP|fail|<case>" for those the specification rejects.
-    Returns the set of failed case ids. The whole file must be consumed."""
-    failed = set()
+    Returns {failed case id: [tags]}. The whole file must be consumed."""
+    failed = {}
     for si in range(0, len(events), shard):
         part = events[si:si + shard]
         path = os.path.join(wdir, "%s.%d.ndjson" % (tag, si // shard))
@@ -86,5 +86,6 @@ def judge(ck, module, cfg, events, wdir, tag="batch", shard=20000, timeout=1200,
             raise common.ToolError("batch trace not fully consumed (%s):\n%s" % (r.violated, r.out[-2000:]))
         for p in r.prints:
             if p.startswith("VP|fail|"):
-                failed.add(int(p.split("|")[2]))
+                f = p.split("|")
+                failed.setdefault(int(f[2]), []).append(f[3] if len(f) > 3 else "")
     return failed
